@@ -604,6 +604,10 @@ func (ex *explorer) process(in *Interp, p *pstate) (res procResult) {
 				report(Disagreement{Kind: "digit-misuse", Mode: mode, Byte: byteDesc(b), Detail: "the byte is used as a decimal digit (b - '0', directly or through a Number method) although it is not one of '0'..'9': the accumulated number is not the number in the text",
 					Witness: p.witness() + inb, XState: m.StateString(p.x), YState: p.y.String()})
 			}
+			if m.in.mirror && b >= '1' && b <= '9' && inNumber(ys.Next.S) && !o.DigitUse && !o.Mirrored {
+				report(Disagreement{Kind: "digit-dropped", Mode: mode, Byte: byteDesc(b), Detail: "the byte is a digit of a number but on this path it is neither used as a decimal digit (b - '0', directly or through a Number method) nor added to the number's text buffer: the digit is missing from the value (a statement that records it sits behind a guard this path does not pass, e.g. the end-of-buffer test)",
+					Witness: p.witness() + inb, XState: m.StateString(p.x), YState: p.y.String()})
+			}
 			if m.in.mirror && mayBeBig(p.y.S) && inNumber(ys.Next.S) && !o.Mirrored && !bigBufEmptyDecided(o.Decisions) {
 				report(Disagreement{Kind: "big-unmirrored", Mode: mode, Byte: byteDesc(b), Detail: "inside a number this byte is neither added to the number's text buffer (BigBuf) nor handled on a path that tested the buffer to be empty: when the number is being kept as text (too many digits for the accumulators) the byte is lost from the value",
 					Witness: p.witness() + inb, XState: m.StateString(p.x), YState: p.y.String()})
